@@ -1,0 +1,14 @@
+//! Verification hook (cargo feature `verif`): entry counts of every map of this index.
+//! The exhaustive destructuring makes a new field break this build until it is accounted for.
+use super::JsonSchemaIndex;
+
+impl JsonSchemaIndex {
+    pub fn verif_report(&self) -> Vec<(&'static str, usize)> {
+        let Self {
+            schema_files,
+        } = self;
+        vec![
+            ("schema.schema_files", schema_files.len()),
+        ]
+    }
+}
